@@ -26,6 +26,8 @@ func hintShape(e ast.Expr) string {
 		switch name {
 		case "verif_unfold":
 			return ""
+		case "verif_old":
+			return hintShape(x.Args[0])
 		case "verif_implies":
 			return hintShape(x.Args[1])
 		case "verif_forallRange":
